@@ -185,10 +185,11 @@ NOINST static int exec_step(int argc, char **argv) {
 	if (!strcmp(op, "raw")) {
 		int16_t *it = malloc(sizeof *it * (size_t)(argc > 1 ? argc : 1) * 1); size_t n = 0;
 		/* tokens: hex byte strings (any length) or "--" for a poll that finds no data */
-		size_t cap = 0; for (int i = 1; i < argc; i++) cap += strlen(argv[i]);
+		size_t cap = 0; for (int i = 1; i < argc; i++) cap += !strncmp(argv[i], "--", 2) && argv[i][2] ? (size_t)atoi(argv[i] + 2) + 1 : strlen(argv[i]);
 		it = realloc(it, sizeof *it * (cap + 4));
 		for (int i = 1; i < argc; i++) {
 			if (!strcmp(argv[i], "--")) { it[n++] = -1; continue; }
+			if (!strncmp(argv[i], "--", 2)) { for (int q = atoi(argv[i] + 2); q > 0; q--) it[n++] = -1; continue; }   /* "--<n>": n consecutive polls that find no data */
 			size_t l = strlen(argv[i]) / 2;
 			for (size_t k = 0; k < l; k++) { unsigned v; sscanf(argv[i] + 2 * k, "%2x", &v); it[n++] = (int16_t)v; }
 		}
